@@ -336,7 +336,8 @@ impl Run {
         if !g.violation_sigs.insert(signature.to_string()) {
             return; // already reported this exact signature
         }
-        if g.violation_sigs.len() > 20 {
+        let cap = std::env::var("VERIF_MAX_REPORT").ok().and_then(|s| s.parse::<usize>().ok()).unwrap_or(20);
+        if g.violation_sigs.len() > cap {
             return; // keep output bounded; the count is still reported
         }
         drop(g);
@@ -361,6 +362,11 @@ impl Run {
     pub fn finish(self) -> ! {
         let code = self.finish_code();
         std::process::exit(code);
+    }
+
+    /// Same as `finish` for callers that only hold a shared reference.
+    pub fn finish_code_exit(&self) -> ! {
+        std::process::exit(self.finish_code())
     }
 
     pub fn finish_code(&self) -> i32 {
